@@ -786,7 +786,11 @@ def main():
                     "zero rows; alpha in {0,1e-3,0.3,2,20} or uniform, M in {0,0.05,1,10,100} or uniform); group_exh = both group operators on every set "
                     "partition of <= 5 features (75) with shuffled group/member order; group_rand = random partitions of <= 6 features plus incomplete, "
                     "overlapping, repeated-member and empty groups, 1 in 7 through _update_weights with an identity optimiser step; zero_skip = the "
-                    "guarded-out zero skip row (u = 0, alpha > 0); malformed = out-of-range index. Each case = 2 evaluations (lasso + hierarchical). "
+                    "guarded-out zero skip row (u = 0, alpha > 0); malformed = out-of-range index; repr = same values as Fortran / strided / transposed / read-only / "
+                    "float32 / int64 / int32 / bool arrays, lists, tuples, 0-d and integer scalars, int64/int32 group arrays: same result as the float64 call, "
+                    "no new exception, arguments unchanged bit for bit; corner = sizes 1, alpha = ||w|| and its adjacent doubles, alpha = 0, alpha on a "
+                    "breakpoint of the hierarchical search and its neighbours, -0.0 entries, scales 2^+-500, both routes; extreme = squared entries "
+                    "overflow / underflow (observations only). Every implementation call compares its arguments with a snapshot taken before. Each case = 2 evaluations (lasso + hierarchical). "
                     "non-trivial = a hierarchy constraint is active (some |theta*_j| < |u_j| with beta* != 0) or a lasso row is shrunk to a non-zero row "
                     "(group streams: additionally a group of >= 2 features); distinct = distinct (shape, alpha, M, groups, clipped-count pattern)")
 
